@@ -188,6 +188,14 @@ async fn peer_writer(
                     format!("direct {lane} {body_text}"),
                 )
             }
+            POp::DirectDrop { item, n, take } => {
+                let lane = ITEM_NAMES[*item as usize];
+                body_text = if *take { format!("@take({n})") } else { format!("@drop({n})") };
+                (
+                    Some(RequestMessage::command(id, RelativeAddress::new(NODE_URI, lane), body_text.as_bytes())),
+                    format!("direct {lane} {body_text}"),
+                )
+            }
             POp::Pause { polls } => {
                 yield_n(*polls).await;
                 (None, format!("pause {polls}"))
